@@ -3,8 +3,33 @@
 From Poster Require Export Model.Varint.
 
 Inductive fst8 := Idle | RLen | RData.
-Record rx := mkfr { buf : bytes; size : N; pend : N; fstate : fst8 }.   (* pend = packet.end *)
-Definition rx_init : rx := mkfr [] 0 0 Idle.
+
+(* BytesMut whose tail of zero bytes (from resize(_, 0)) is kept as a count: the buffer denoted
+   is  zd ++ repeat 0 zp.  A 4-byte remaining length makes the code resize the buffer by up to
+   256 MiB of zeros; the model must not materialise them. *)
+Record zbuf := mkz { zd : bytes; zp : N }.
+Definition zbytes (b : zbuf) : bytes := zd b ++ repeat 0 (N.to_nat (zp b)).
+Definition zlen (b : zbuf) : N := lenN (zd b) + zp b.
+(* BytesMut::resize(n, 0) *)
+Definition zresize (n : N) (b : zbuf) : zbuf :=
+  if n <=? lenN (zd b) then mkz (takeN n (zd b)) 0
+  else mkz (zd b) (n - lenN (zd b)).
+(* poll_read filled buf[at .. at+|d|] *)
+Definition zfill (at_ : N) (d : bytes) (b : zbuf) : zbuf :=
+  let n := lenN (zd b) in
+  if at_ <=? n then
+    mkz (takeN at_ (zd b) ++ d ++ dropN (at_ + lenN d) (zd b)) (zp b - (at_ + lenN d - n))
+  else
+    mkz (zd b ++ repeat 0 (N.to_nat (at_ - n)) ++ d) (zp b - (at_ - n) - lenN d).
+(* buf[..n] (split_to's result) and the rest *)
+Definition ztake (n : N) (b : zbuf) : bytes :=
+  if n <=? lenN (zd b) then takeN n (zd b)
+  else zd b ++ repeat 0 (N.to_nat (N.min (n - lenN (zd b)) (zp b))).
+Definition zdrop (n : N) (b : zbuf) : zbuf :=
+  if n <=? lenN (zd b) then mkz (dropN n (zd b)) (zp b) else mkz [] (zp b - (n - lenN (zd b))).
+
+Record rx := mkfr { buf : zbuf; size : N; pend : N; fstate : fst8 }.   (* pend = packet.end *)
+Definition rx_init : rx := mkfr (mkz [] 0) 0 0 Idle.
 
 (* the transport: queued segments (each read takes from the head segment only), then an error
    or end-of-stream if scripted, else Pending *)
@@ -21,11 +46,6 @@ Definition read (cap : N) (rd : reader) : rr * reader :=
   | [] => if r_err rd || r_eof rd then (REnd, rd) else (RPending, rd)
   end.
 
-(* BytesMut::resize(n, 0) *)
-Definition resize (n : N) (l : bytes) : bytes := takeN n l ++ repeat 0 (N.to_nat (n - lenN l)).
-(* poll_read filled buf[size .. size+|d|] *)
-Definition fill (at_ : N) (d l : bytes) : bytes := takeN at_ l ++ d ++ dropN (at_ + lenN d) l.
-
 Inductive fout := FItem (p : bytes) | FPending | FEnd | FPanic | FOutOfFuel.
 
 Fixpoint fpoll (fuel : nat) (x : rx) (rd : reader) : fout * rx * reader :=
@@ -35,7 +55,7 @@ Fixpoint fpoll (fuel : nat) (x : rx) (rd : reader) : fout * rx * reader :=
     match fstate x with
     | Idle =>
       let chunk := if pend x - size x <? 512 then 512 else pend x in   (* saturating_sub *)
-      let b := resize (size x + chunk) (buf x) in
+      let b := zresize (size x + chunk) (buf x) in
       match read chunk rd with
       | (RPending, rd') => (FPending, mkfr b (size x) (pend x) Idle, rd')
       | (REnd, rd') => (FEnd, mkfr b (size x) (pend x) Idle, rd')
@@ -43,10 +63,12 @@ Fixpoint fpoll (fuel : nat) (x : rx) (rd : reader) : fout * rx * reader :=
         if lenN d =? 0 then (FEnd, mkfr b (size x) (pend x) Idle, rd')   (* Ok(0) is EOF *)
         else
           let sz := size x + lenN d in
-          fpoll fuel (mkfr (fill (size x) d b) sz (pend x) (if 2 <=? sz then RLen else Idle)) rd'
+          fpoll fuel (mkfr (zfill (size x) d b) sz (pend x) (if 2 <=? sz then RLen else Idle)) rd'
       end
     | RLen =>
-      match vdec (tl (buf x)) with      (* over the whole buffer, zero padding included *)
+      (* VarSizeInt::try_from(&buf[1..]) over the whole buffer, zero padding included; the decoder
+         never looks beyond five bytes *)
+      match vdec (tl (ztake 6 (buf x))) with
       | VOk v l => fpoll fuel (mkfr (buf x) (size x) (1 + l + v) RData) rd
       | VInsufficient => fpoll fuel (mkfr (buf x) (size x) (pend x) Idle) rd
       | VBad => (FEnd, x, rd)
@@ -56,8 +78,8 @@ Fixpoint fpoll (fuel : nat) (x : rx) (rd : reader) : fout * rx * reader :=
       if size x <? pend x then fpoll fuel (mkfr (buf x) (size x) (pend x) Idle) rd
       else
         let sz := size x - pend x in
-        (FItem (takeN (pend x) (buf x)),
-         mkfr (dropN (pend x) (buf x)) sz 0 (if sz =? 0 then Idle else RLen), rd)
+        (FItem (ztake (pend x) (buf x)),
+         mkfr (zdrop (pend x) (buf x)) sz 0 (if sz =? 0 then Idle else RLen), rd)
     end
   end.
 
